@@ -41,6 +41,7 @@ PodSelCat ==
   { EmptySel, MLSel(L1("app", "a")), MLSel(L1("app", "b")), MLSel(L2("app", "a", "tier", "b")),
     ExSel("app", "In", <<"a">>), ExSel("app", "In", <<"a", "b">>), ExSel("app", "NotIn", <<"a">>),
     ExSel("tier", "Exists", <<>>), ExSel("tier", "DoesNotExist", <<>>), ExSel("zone", "NotIn", <<"a">>),
+    MLSel(L1("canary", "")), ExSel("canary", "In", <<"">>), MLSel(L2("app", "a", "canary", "")),
     [ml |-> L1("app", "a"), ex |-> <<[key |-> "tier", op |-> "NotIn", vals |-> <<"b">>]>>] }
 
 NsSelCat ==
@@ -75,7 +76,8 @@ PodPeerCat ==
           n \in {EmptySel, MLSel(L1("team", "x")), MLSel(L1(NameKey, "ns1")), ExSel("team", "NotIn", <<"x">>),
                  [ml |-> L1("team", "x"), ex |-> <<[key |-> "env", op |-> "Exists", vals |-> <<>>]>>],
                  [ml |-> L1("team", "y"), ex |-> <<[key |-> "env", op |-> "In", vals |-> <<"y", "z">>]>>]},
-          p \in {EmptySel, MLSel(L1("app", "a")), MLSel(L1("tier", "b")), ExSel("app", "NotIn", <<"a">>), ExSel("tier", "Exists", <<>>)}}
+          p \in {EmptySel, MLSel(L1("app", "a")), MLSel(L1("tier", "b")), MLSel(L1("canary", "")), ExSel("app", "NotIn", <<"a">>),
+                 ExSel("tier", "Exists", <<>>)}}
 
 NPPort(protoNil, proto, kind, num, name, endNil, end) ==
   [protoNil |-> protoNil, proto |-> proto, kind |-> kind, num |-> num, name |-> name,
@@ -104,6 +106,8 @@ WlCat ==
     [ns |-> "ns3", labels |-> NoLabels,                    ports |-> <<CP("http", "TCP", 4)>>],
     [ns |-> "ns1", labels |-> L2("app", "a", "tier", "b"), ports |-> <<CP("http", "TCP", 2), CP("web", "TCP", 4)>>],
     [ns |-> "ns2", labels |-> L1("tier", "b"),             ports |-> <<CP("web", "TCP", 2), CP("", "TCP", 4), CP("dns", "UDP", 4)>>],
+    [ns |-> "ns1", labels |-> L2("app", "a", "canary", ""), ports |-> <<CP("http", "TCP", 2)>>],
+    [ns |-> "ns2", labels |-> L1("canary", ""),            ports |-> <<>>],
     [ns |-> "ns3", labels |-> L1("tier", "c"),             ports |-> <<CP("web", "TCP", 2), CP("dns", "UDP", 2)>>] }
 
 ControllerKinds == {"Deployment", "ReplicaSet", "StatefulSet", "DaemonSet", "Job", "CronJob", "ReplicationController"}
